@@ -678,7 +678,7 @@ end
 `exprData` is the data an expression computes by the property's statement (`vₙ.getter(…v₁.getter(x)…)` for a
 `Compose`, the tuple of the getters' results for a `Combine`), `exprTypes` the types it contributes to `compose`,
 `exprOKb names T` the syntactic conditions under which `Props/C14.lean` proves that the constructed variable
-satisfies the hypotheses of `compose_eq_sequence` (`T` = all types of the run).  All executable. -/
+satisfies the hypotheses of `compose_eq_sequence_partial` (`T` = all types of the run).  All executable. -/
 
 mutual
 def exprData {D : Type} (tup : List D → D) : Expr D → D → D
@@ -775,7 +775,7 @@ end exprOK
 def namesOK2b (names : List String) : Bool :=
   namesOKb names && names.contains "dim" && names.contains "combine" && names.contains "getter"
 
-/-- the syntactic hypothesis of `compose_eq_sequence_expr` for a chain of expressions `es` applied to a value
+/-- the syntactic hypothesis of `compose_eq_sequence_expr_partial` for a chain of expressions `es` applied to a value
 whose `context.variable` is `cv` -/
 def chainOKb {D : Type} (names : List String) (cv : Option V) (es : List (Expr D)) : Bool :=
   let T := preHist names cv ++ argsAllTypes names es
